@@ -8,6 +8,18 @@ package keeper
 //@ store Pool       kv=node/Pool/value/       key=byte0              val=github.com/SaoNetwork/sao/x/node/types.Pool
 //@ store Node       kv=node/Node/value/       key=node_NodeKey       val=github.com/SaoNetwork/sao/x/node/types.Node
 
+//@ param github.com/SaoNetwork/sao/x/node/types.KeyBlockReward Coin
+//@ param github.com/SaoNetwork/sao/x/node/types.KeyBaseLine Coin
+//@ param github.com/SaoNetwork/sao/x/node/types.KeyAPY string
+//@ param github.com/SaoNetwork/sao/x/node/types.KeyHalvingPeriod int
+//@ param github.com/SaoNetwork/sao/x/node/types.KeyAdjustmentPeriod int
+//@ param github.com/SaoNetwork/sao/x/node/types.KeyFishmenInfo string
+//@ param github.com/SaoNetwork/sao/x/node/types.KeyPenaltyBase int
+//@ param github.com/SaoNetwork/sao/x/node/types.KeyMaxPenalty int
+//@ param github.com/SaoNetwork/sao/x/node/types.KeyShareThreshold string
+//@ param github.com/SaoNetwork/sao/x/node/types.KeyVstorageThreshold int
+//@ param github.com/SaoNetwork/sao/x/node/types.KeyOfflineTriggerHeight int
+
 // ---- scaffolded accessors: verified against the raw KV model, callers see the typed view only
 
 //@ accessor get (Keeper) GetPledge Pledge(creator)
@@ -118,3 +130,83 @@ package keeper
 //@   loop L1 invariant forall j int :: 0 <= j && j <= rangeindex ==> shardPledge.Amount >= shard0.RenewInfos[j].Pledge.Amount
 //@   loop L1 invariant shardPledge.Denom == pledge.TotalShardPledged.Denom
 //@   loop L1 decreases len(shard0.RenewInfos) - rangeindex
+
+// ---- super-node role (C20)
+
+//@ pure shareOK(d string, v string, sub int, thr int) bool = validAddr(d) && validValAddr(v) && hasDelegation(addr(d), valAddrOf(v)) && hasValidator(valAddrOf(v))
+//@       && validatorShares(valAddrOf(v)) != sub && decquo(delegationShares(addr(d), valAddrOf(v)), validatorShares(valAddrOf(v)) - sub) >= thr
+
+//@ func (Keeper) CheckDelegationShare(ctx, delAddr, valAddr, sharesToSub) (err)
+//@   modifies nothing
+//@   ensures [C20.share.ok] err == nil ==> shareOK(delAddr, valAddr, sharesToSub, decFromStr(param(KeyShareThreshold)))
+//@   ensures [C20.share.err] err != nil ==> !shareOK(delAddr, valAddr, sharesToSub, decFromStr(param(KeyShareThreshold)))
+
+//@ func (Keeper) CheckNodeShare(ctx, node, acc) (ok)
+//@   requires node != nil
+//@   modifies *node
+//@   ensures [C20.nodeshare.ok] ok ==> node.Role == 1 && shareOK(acc, node.Validator, 0, decFromStr(param(KeyShareThreshold)))
+//@   ensures [C20.nodeshare.no] !ok ==> *node == old(*node)
+//@   ensures [C20.nodeshare.frame] node.Creator == old(node.Creator) && node.Status == old(node.Status) && same(node.Reputation, old(node.Reputation))
+//@       && node.LastAliveHeight == old(node.LastAliveHeight) && node.TxAddresses == old(node.TxAddresses) && node.Peer == old(node.Peer)
+//@   loop L1 invariant -1 <= rangeindex && rangeindex < len(dels)
+//@   loop L1 invariant *node0 == old(*node0)
+//@   loop L1 decreases len(dels) - rangeindex
+
+// settled reward of a pledge record given the pool accumulator
+//@ pure pledgeQ(p node_Pledge, acc int) int = (p.TotalStorage > 0 ? p.Reward.Amount + acc * p.TotalStorage - p.RewardDebt.Amount : p.Reward.Amount)
+
+//@ func (msgServer) AddVstorage(goCtx, msg) (resp, err)
+//@   requires msg != nil
+//@   requires has(Pledge, msg.Creator) ==> Pledge[msg.Creator].Creator == msg.Creator && pledgeWf(Pledge[msg.Creator])
+//@   requires has(Node, msg.Creator) ==> Node[msg.Creator].Creator == msg.Creator
+//@   requires has(Pool) ==> get(Pool).TotalStorage >= 0
+//@   modifies Pledge[msg.Creator], Pool, Node[msg.Creator], Bank
+//@   ensures [C07.cap.add] err == nil && msg.Size_ <= MaxInt64 - 1000000 && (old(has(Pledge, msg.Creator)) ==> old(Pledge[msg.Creator].TotalStorage) <= MaxInt64 - msg.Size_ - 1000000) ==>
+//@       Pledge[msg.Creator].TotalStorage == (old(has(Pledge, msg.Creator)) ? old(Pledge[msg.Creator].TotalStorage) : 0) + 1000000 * div(msg.Size_ + 999999, 1000000)
+//@       && Pledge[msg.Creator].TotalStoragePledged.Amount == (old(has(Pledge, msg.Creator)) ? old(Pledge[msg.Creator].TotalStoragePledged.Amount) : 0) + div(msg.Size_ + 999999, 1000000)
+//@   ensures [C07.cap.add.bank] err == nil && msg.Size_ <= MaxInt64 - 1000000 && addr(msg.Creator) != moduleAddr("node") ==>
+//@       bal(moduleAddr("node"), param(KeyBaseLine).Denom) == old(bal(moduleAddr("node"), param(KeyBaseLine).Denom)) + div(msg.Size_ + 999999, 1000000)
+//@       && bal(addr(msg.Creator), param(KeyBaseLine).Denom) == old(bal(addr(msg.Creator), param(KeyBaseLine).Denom)) - div(msg.Size_ + 999999, 1000000)
+//@   ensures [C10.addv.bankframe] err == nil ==> forall a addr, d string :: a != addr(msg.Creator) && a != moduleAddr("node") ==> bal(a, d) == old(bal(a, d))
+//@   ensures [C07.cap.add.other] err == nil ==> has(Pledge, msg.Creator) && Pledge[msg.Creator].Creator == msg.Creator
+//@       && (old(has(Pledge, msg.Creator)) ==> Pledge[msg.Creator].UsedStorage == old(Pledge[msg.Creator].UsedStorage) && Pledge[msg.Creator].TotalShardPledged == old(Pledge[msg.Creator].TotalShardPledged))
+//@       && (!old(has(Pledge, msg.Creator)) ==> Pledge[msg.Creator].UsedStorage == 0 && Pledge[msg.Creator].TotalShardPledged.Amount == 0)
+//@   ensures [C07.cap.add.wf] err == nil && msg.Size_ <= MaxInt64 - 1000000 && (old(has(Pledge, msg.Creator)) ==> old(Pledge[msg.Creator].TotalStorage) <= MaxInt64 - msg.Size_ - 1000000) ==> pledgeWf(Pledge[msg.Creator])
+//@   ensures [C14.pool.add] err == nil && msg.Size_ <= MaxInt64 - 1000000 && old(get(Pool).TotalStorage) <= MaxInt64 - msg.Size_ - 1000000 ==>
+//@       get(Pool).TotalStorage == old(get(Pool).TotalStorage) + 1000000 * div(msg.Size_ + 999999, 1000000)
+//@       && get(Pool).TotalPledged.Amount == old(get(Pool).TotalPledged.Amount) + div(msg.Size_ + 999999, 1000000)
+//@   ensures [C08.settle.add] err == nil && old(has(Pledge, msg.Creator)) ==>
+//@       Pledge[msg.Creator].Reward.Amount == old(pledgeQ(Pledge[msg.Creator], get(Pool).AccRewardPerByte.Amount))
+//@       && Pledge[msg.Creator].RewardDebt.Amount == old(get(Pool).AccRewardPerByte.Amount) * Pledge[msg.Creator].TotalStorage
+//@       && get(Pool).AccRewardPerByte == old(get(Pool).AccRewardPerByte) && get(Pool).TotalReward == old(get(Pool).TotalReward)
+//@   ensures [C20.promote.add] err == nil && has(Node, msg.Creator) && Node[msg.Creator].Role == 1 && old(Node[msg.Creator].Role) != 1 ==>
+//@       Node[msg.Creator].Status & 15 == 15 && Pledge[msg.Creator].TotalStorage >= param(KeyVstorageThreshold)
+//@       && shareOK(msg.Creator, Node[msg.Creator].Validator, 0, decFromStr(param(KeyShareThreshold)))
+//@   ensures [C10.addv.node] err == nil ==> has(Node, msg.Creator) && Node[msg.Creator].Creator == msg.Creator && Node[msg.Creator].Status == old(Node[msg.Creator].Status)
+
+//@ func (msgServer) RemoveVstorage(goCtx, msg) (resp, err)
+//@   requires msg != nil
+//@   requires has(Pledge, msg.Creator) ==> Pledge[msg.Creator].Creator == msg.Creator && pledgeWf(Pledge[msg.Creator])
+//@   requires has(Node, msg.Creator) ==> Node[msg.Creator].Creator == msg.Creator
+//@   modifies Pledge[msg.Creator], Pool, Node[msg.Creator], Bank
+//@   ensures [C07.cap.rm] err == nil ==> msg.Size_ <= MaxInt64 && old(has(Pledge, msg.Creator))
+//@       && Pledge[msg.Creator].TotalStorage == old(Pledge[msg.Creator].TotalStorage) - 1000000 * div(msg.Size_, 1000000)
+//@       && Pledge[msg.Creator].TotalStoragePledged.Amount == old(Pledge[msg.Creator].TotalStoragePledged.Amount) - div(msg.Size_, 1000000)
+//@       && div(msg.Size_, 1000000) >= 1
+//@   ensures [C07.cap.rm.free] err == nil ==> 1000000 * div(msg.Size_, 1000000) <= old(Pledge[msg.Creator].TotalStorage - Pledge[msg.Creator].UsedStorage) && pledgeWf(Pledge[msg.Creator])
+//@   ensures [C07.cap.rm.bank] err == nil && addr(msg.Creator) != moduleAddr("node") ==>
+//@       bal(moduleAddr("node"), param(KeyBaseLine).Denom) == old(bal(moduleAddr("node"), param(KeyBaseLine).Denom)) - div(msg.Size_, 1000000)
+//@       && bal(addr(msg.Creator), param(KeyBaseLine).Denom) == old(bal(addr(msg.Creator), param(KeyBaseLine).Denom)) + div(msg.Size_, 1000000)
+//@   ensures [C10.rmv.bankframe] err == nil ==> forall a addr, d string :: a != addr(msg.Creator) && a != moduleAddr("node") ==> bal(a, d) == old(bal(a, d))
+//@   ensures [C07.cap.rm.other] err == nil ==> has(Pledge, msg.Creator) && Pledge[msg.Creator].Creator == msg.Creator
+//@       && Pledge[msg.Creator].UsedStorage == old(Pledge[msg.Creator].UsedStorage) && Pledge[msg.Creator].TotalShardPledged == old(Pledge[msg.Creator].TotalShardPledged)
+//@   ensures [C14.pool.rm] err == nil && old(get(Pool).TotalStorage) >= MaxInt64 * -1 + msg.Size_ ==>
+//@       get(Pool).TotalStorage == old(get(Pool).TotalStorage) - 1000000 * div(msg.Size_, 1000000)
+//@       && get(Pool).TotalPledged.Amount == old(get(Pool).TotalPledged.Amount) - div(msg.Size_, 1000000)
+//@   ensures [C08.settle.rm] err == nil ==>
+//@       Pledge[msg.Creator].Reward.Amount == old(pledgeQ(Pledge[msg.Creator], get(Pool).AccRewardPerByte.Amount))
+//@       && Pledge[msg.Creator].RewardDebt.Amount == old(get(Pool).AccRewardPerByte.Amount) * Pledge[msg.Creator].TotalStorage
+//@       && get(Pool).AccRewardPerByte == old(get(Pool).AccRewardPerByte) && get(Pool).TotalReward == old(get(Pool).TotalReward)
+//@   ensures [C20.demote.rm] err == nil && Pledge[msg.Creator].TotalStorage < param(KeyVstorageThreshold) ==> has(Node, msg.Creator) && Node[msg.Creator].Role != 1
+//@   ensures [C20.nopromote.rm] err == nil && has(Node, msg.Creator) && Node[msg.Creator].Role == 1 ==> old(Node[msg.Creator].Role) == 1
+//@   ensures [C10.rmv.node] err == nil ==> has(Node, msg.Creator) && Node[msg.Creator].Creator == msg.Creator && Node[msg.Creator].Status == old(Node[msg.Creator].Status)
